@@ -2,7 +2,7 @@
 # usage: tools/sweep.sh <seed> [tier]   -- runs every registered check once, one summary line each
 seed="${1:-0}"; tier="${2:-quick}"
 cd /verif
-for id in C01 C02 C03 C04 C05 C06 C07 C08 C09 C10 C11 C12 C13 C14 C15 C16 C17 C18 C19 C20; do
+for id in ${IDS:-C01 C02 C03 C04 C05 C06 C07 C08 C09 C10 C11 C12 C13 C14 C15 C16 C17 C18 C19 C20}; do
   out=$(VERIF_SEED=$seed VERIF_EVIDENCE_DIR=/verif/.work/sweep-evidence timeout 7200 ./check $id --tier $tier 2>&1)
   code=$?
   echo "seed=$seed $id exit=$code $(echo "$out" | grep -E "^$id: tier" | tail -1)"
